@@ -633,7 +633,7 @@ func init() {
 		},
 		Cases: func(tier string) int {
 			if tier == "thorough" {
-				return 60000
+				return 400000
 			}
 			return 4000
 		},
